@@ -8,9 +8,16 @@ import elem, lib
 F = Fraction
 
 
+LAYOUT = 'C'          # set by a caller around a case: 'F' / 'T' hand the kernels coefficient arrays that are not C-contiguous
+
+
 def _as(a):
     """no copy when the caller already holds a float ndarray (C14 snapshots the very buffer the UTPM wraps)"""
-    return a if isinstance(a, numpy.ndarray) and a.dtype == float else numpy.array(a, dtype=float)
+    r = a if isinstance(a, numpy.ndarray) and a.dtype == float else numpy.array(a, dtype=float)
+    if LAYOUT != 'C':
+        import lib
+        r = lib.relayout(r, LAYOUT)
+    return r
 
 
 class Op:
@@ -255,6 +262,46 @@ def _ref0_product(name):
         return [getattr(numpy, name)(a, b)]
     return ref0
 
+
+# symmetric eigenproblem with directions of very different magnitude and close (but distinct) eigenvalues in one of them: a decision
+# such as "are these eigenvalues repeated" must be taken per direction
+def _gen_eigh_gap(rng, Dmax=6, Pmax=3):
+    import numpy.linalg as la
+    D = rng.randint(2, 3); P = rng.randint(2, 3); n = 3
+    A = _rand_utpm(rng, D, P, (n, n))
+    A = 0.5 * (A + A.transpose((0, 1, 3, 2)))
+    big = rng.randrange(P)
+    for p in range(P):
+        S = numpy.zeros((n, n))
+        for i in range(n):
+            for j in range(i + 1, n):
+                S[i, j] = rng.randint(-3, 3) / 4; S[j, i] = -S[i, j]
+        Q = la.solve(numpy.eye(n) + S, numpy.eye(n) - S)
+        lam = [1.0e4, 2.5e4, -3.0e4] if p == big else [1.0, 1.0 + rng.choice([1e-5, 3e-6, 1e-4]), 3.0]
+        A0 = Q @ numpy.diag(lam) @ Q.T
+        A[0, p] = 0.5 * (A0 + A0.T)
+    return dict(op='linalg:eigh_gap', inputs=[A.tolist()])
+
+
+def _run_eigh_gap(algopy, case, inputs):
+    l, Q = algopy.eigh(algopy.UTPM(_as(inputs[0])))
+    return [numpy.asarray(l.data)]          # the eigenvalues: invariant under the sign/rotation conventions of the eigenvectors
+
+
+_op = Op('linalg:eigh_gap', _gen_eigh_gap, _run_eigh_gap, 'linalg')
+_op.only = ('C11',)
+reg(_op)
+
+# trace / transpose / sum of RECTANGULAR matrices (tall with >= 2 more rows than columns, wide)
+def _gen_rect(rng, Dmax=6, Pmax=3):
+    D = rng.randint(1, max(1, min(Dmax, 4))); P = rng.randint(1, Pmax)
+    shp = rng.choice([(4, 2), (5, 3), (3, 1), (2, 4), (1, 3), (6, 2), (3, 2), (2, 2)])
+    return dict(op='linalg:trace_rect', inputs=[_rand_utpm(rng, D, P, shp).tolist()])
+
+
+_op = Op('linalg:trace_rect', _gen_rect, lambda algopy, case, inputs: [numpy.asarray(algopy.trace(algopy.UTPM(_as(inputs[0]))).data)], 'linalg')
+_op.ref0 = lambda case, ins0: [numpy.trace(ins0[0])]
+reg(_op)
 
 # general eigenproblem (first order only: UTPM.eig supports D <= 2), real distinct spectrum, non-normal matrices
 def _gen_eig(rng, Dmax=6, Pmax=3):
